@@ -12,7 +12,13 @@ functional_args  a TABLE of argument recipes for every name in deepali.core.func
                  zeros, ones, binary, integer-valued floats, empty / full masks, zero or constant displacement,
                  identity matrices, the sampling grid's own coordinates (see special_array()); plus recipes with
                  scalar arguments that make a step a no-op (intensity window of width 1, side_length=1, sigma=0,
-                 padding value 0, ...).
+                 padding value 0, ...).  SECONDARY arguments (every parameter besides the data whose annotation admits a
+                 tensor: sigma, spacing, size, shape, margin, num, value, padding, min / max, x_max, norm, offset, pos_weight,
+                 ...) are also passed as tensors - 0-dim, 1-element, per-dimension and per-batch forms, dtype float32 /
+                 float64 / int64 crossed with both data dtypes, contiguous and view layouts - together with every value of the
+                 options that switch on per-dimension handling (dims subsets, levels, derivative mode, padding mode):
+                 `sec_*` recipes, option combination selected by the case key `w`, all combinations enumerated; the self-test
+                 check_secondary_complete() asserts that every such parameter of every function receives a tensor.
 accessors        every with-argument accessor ("returns a new object with X changed") of Grid, Cube, Image,
                  ImageBatch, FlowField(s) and of every transform class leaves the receiver's structural and
                  behavioural fingerprint unchanged.  The structural fingerprint of a module contains everything
@@ -20,8 +26,16 @@ accessors        every with-argument accessor ("returns a new object with X chan
                  `_non_persistent_buffers_set` of every sub-module, training flags, all hook dictionaries.  Receivers
                  are exercised fresh, after update() and after __call__() (non-persistent buffers u / v / p exist);
                  data receivers with every special content, transforms also with identity parameters.
+                 Every public method that deepali defines for Image / ImageBatch / FlowField / FlowFields is called through
+                 an `M` op whose variants set EVERY parameter of the method (self-test check_data_methods_complete()), with
+                 values that differ from the receiver's state: align_corners opposite to the flag of the receiver's grid,
+                 sigma / size / spacing / margin / bounds as tensors, dims subsets, levels, start / end, modes, paddings.
+                 Fingerprints record every attribute of every referenced Grid / Cube (all slots: fractional internal size,
+                 spacing, center, direction AND the align_corners flag, which Grid.__eq__ ignores) plus object identity;
+                 besides the receiver, sibling objects built from the very same Grid object(s) (an Image, an ImageBatch, a
+                 Translation) and every argument object (snapshot taken when the argument is created) must be unchanged.
 copies           histories over {copy.copy, copy.deepcopy, clone(), pickle} x {modify original, modify copy}
-                 x {in place on tensors, `_` setters, data_, condition_, remove_update_hook, train flag} with
+                 x {in place on tensors, `_` setters, data_, unlink_, condition_, remove_update_hook, train flag} with
                  evaluations (update() / __call__) of either side in between: deep copies are independent in both
                  directions, shallow copies share tensors but not attribute / buffer / module containers nor the
                  persistence bookkeeping of buffers.
@@ -67,13 +81,19 @@ MANIFEST = {
             "offset / transposed memory layouts and float32/float64/integer dtypes, with generic content and with special "
             "contents that make a step of the operation a no-op (unit / offset-unit / centred range, constant, zeros, ones, "
             "binary, integer-valued, empty and full masks, zero displacement, identity matrices and coordinates; scalar options "
-            "such as a unit-width intensity window or side_length=1), is compared bit-wise (NaN-aware) with a "
+            "such as a unit-width intensity window or side_length=1), and every secondary argument whose annotation admits a "
+            "tensor (sigma, spacing, size, margin, bounds, padding value, norm, ... as 0-dim / 1-element / per-dimension / per-batch "
+            "float32 / float64 / int64 tensors crossed with both data dtypes and with all values of the options that enable "
+            "per-dimension handling: dims subsets, levels, derivative modes; completeness is a self-test), is compared bit-wise (NaN-aware) with a "
             "clone taken before the call, again after the harness has modified the result in place (exposes returned "
             "aliases where a new tensor is promised); explicit in-place variants must modify exactly their target. "
-            "Every with-argument accessor of Grid, Cube, Image, ImageBatch, FlowField(s) and of all transform classes "
-            "(Parameter / buffer / callable parameters; fresh, after update() and after __call__()) must leave the receiver's "
+            "Every with-argument accessor of Grid, Cube, Image, ImageBatch, FlowField(s) (every public method, every parameter set, "
+            "align_corners opposite to the grid's flag, tensor-valued sizes / sigmas / spacings; completeness is a self-test) and of all transform classes "
+            "(Parameter / buffer / callable parameters; fresh, after update() and after __call__()) must leave its argument objects, sibling "
+            "objects that share the receiver's Grid object(s), and the receiver's "
             "structural fingerprint (tensor values and identities, parameter/buffer/module names, grid, conditioning, nested "
-            "flags, state_dict() keys and values, persistent flags and _non_persistent_buffers_set, training flags, hook "
+            "flags, every attribute of every referenced Grid incl. fractional size and the align_corners flag, state_dict() keys and values, "
+            "persistent flags and _non_persistent_buffers_set, training flags, hook "
             "dictionaries) and its behaviour on probe points unchanged. Histories of copy.copy / deepcopy / clone / pickle, "
             "modifications and evaluations of either side check that deep copies are independent in both directions and that "
             "shallow copies do not share attribute, buffer or module containers nor buffer persistence bookkeeping. "
@@ -105,6 +125,17 @@ ASSUMPTIONS = [
     "value (e.g. a range of exactly 255) is only reached through the scalar-argument recipes",
     "in-place variants called with a special content may legitimately be value no-ops: `inplace_not_applied` is only "
     "asserted for generic content",
+    "secondary tensor arguments: only parameters whose annotation admits a tensor are passed as tensors (sizes of grid_resize / "
+    "grid_reshape must be integer tensors - Grid.resize() raises TypeError otherwise; region_of_interest() start / size and fill_border() "
+    "margins are documented as int sequences and are not passed as tensors); ncc_loss(mask=...) cannot be called at all (K6)",
+    "option values not generated because deepali (or torch) rejects them: mode='nearest' of downsample / upsample / pyramid "
+    "(F.interpolate refuses align_corners), stride / padding of avg_pool of data objects (Grid.pool raises NotImplementedError), "
+    "pyramid(spacing=...) that makes the finest grid size fractional together with align_corners=True (Grid._resize assertion, C03), "
+    "normalize(mode='zscore') without any bound (torch.clamp(None, None)); file I/O methods are not called "
+    "(Image.same_domain_as() and FlowField(s).curl() raised for every input before the repairs N15-3 / N15-4 and are exercised "
+    "like every other method now; a crash inside deepali is reported as a violation)",
+    "unlink_() on one shallow copy must not remove the parameters of the other (in-code contract of unlink_: the name is released "
+    "'without modifying the container of parameters shared with other shallow copies'); data_() is still not asserted either way",
     "a transform with callable parameters whose grid was replaced by grid_() is not evaluated afterwards in the copies "
     "facet (the callable still returns parameters of the old shape; deepali raises ValueError, which is correct)",
 ]
@@ -311,6 +342,10 @@ class Ctx:
         self.dt = tdtype(case["dtype"])
         self.key = int(case["key"])
         self.v = int(case.get("v", 0))
+        self.w = int(case.get("w", 0))  # selects the option combination of the secondary-argument recipes (see _pick)
+        self.sdtype = str(case.get("sdtype", "float32"))  # dtype of secondary tensor arguments (sigma, spacing, size, ...)
+        self.sec_allowed = None  # dtypes the recipe admits for its secondary tensors (R.sdt)
+        self.secs = 0  # number of secondary tensor arguments created
         self.layouts = list(case["layouts"])
         self.allowed = None  # restriction of layouts set by the recipe
         self.bases = []
@@ -350,6 +385,30 @@ class Ctx:
         if base is not t:
             self.views += 1
         self.bases.append((t, base))
+        return t
+
+    def sec(self, slot, shape, lo=0.5, hi=2.0, ilo=1, ihi=3, quant=False, layout=None):
+        """Secondary (non-primary) argument given as a TENSOR: sigma, spacing, size, margins, bounds, padding value, ...
+        The dtype is the case dimension `sdtype` (float32 / float64 / int64, restricted to what the recipe admits), so
+        that together with the data dtype every combination occurs in which deepali's as_tensor() / cat_scalars() /
+        Tensor.to() hands the caller's own tensor through without a copy.  Float values lie in [lo, hi) (whole numbers
+        when quant=True), integer values in [ilo, ihi).  The memory layout follows the slot like any other argument."""
+        allow = self.sec_allowed or SDT_F
+        name = self.sdtype if self.sdtype in allow else allow[0]
+        self.secs += 1
+        if name == "int64":
+            return self.ten(slot, shape, float(ilo), float(ihi), torch.int64, layout)
+        return self.ten(slot, shape, float(ilo) if quant else lo, float(ihi) if quant else hi, tdtype(name), layout, quant=quant)
+
+    def sec_vals(self, slot, values, dtype):
+        """Secondary tensor argument with the given exact values (sizes, shapes), in the memory layout of the slot."""
+        lay = self.layout(slot)
+        arr = np.asarray(values, dtype=np.float64)
+        t, base = embed_layout(arr, arr.shape, self.key * 16 + slot, dtype, "contig" if lay == "expand" else lay)
+        if base is not t:
+            self.views += 1
+        self.bases.append((t, base))
+        self.secs += 1
         return t
 
     # typical argument kinds ------------------------------------------------------------
@@ -423,9 +482,25 @@ def same_bits(a: torch.Tensor, b: torch.Tensor) -> bool:
     return bool(torch.equal(a, b))
 
 
+def walk_grids(obj, path=""):
+    """Yield (path, Grid | Cube) for all grid objects in nested lists/tuples/dicts."""
+    from deepali.core import Cube, Grid
+
+    if isinstance(obj, (Grid, Cube)):
+        yield path, obj
+    elif isinstance(obj, (list, tuple)):
+        for i, o in enumerate(obj):
+            yield from walk_grids(o, f"{path}[{i}]")
+    elif isinstance(obj, dict):
+        for k in obj:
+            yield from walk_grids(obj[k], f"{path}[{k!r}]")
+
+
 class Snapshot:
     def __init__(self, args, kwargs, bases):
         self.items = []
+        # Grid / Cube arguments: all attributes (tensors by value and identity, align_corners flag)
+        self.grids = [(path, g, grid_fp(g)) for path, g in list(walk_grids(args, "args")) + list(walk_grids(kwargs, "kwargs"))]
         seen = set()
         for path, t in list(walk_tensors(args, "args")) + list(walk_tensors(kwargs, "kwargs")):
             if id(t) in seen:
@@ -448,6 +523,9 @@ class Snapshot:
             for i, (b, c) in enumerate(self.bases):
                 if not same_bits(b, c):
                     out.append(f"base#{i}")
+        for path, g, fp0 in self.grids:
+            if fp_diff(fp0, grid_fp(g)):
+                out.append(path + ":grid" + "".join(fp_diff(fp0, grid_fp(g))[:2]))
         return out
 
     def bumped(self):
@@ -500,7 +578,7 @@ class R:
     """One argument recipe: build(X) -> (args, kwargs)."""
 
     def __init__(self, tag, build, policy="fresh", inplace=None, layouts=None, dims=(2, 3), no_expand=False,
-                 nmax=2, doc="", skip_on=None, contents=None):
+                 nmax=2, doc="", skip_on=None, contents=None, nw=1, sdt=None, qstep=1):
         self.tag = tag
         self.build = build
         self.policy = policy  # fresh | ref | pass
@@ -512,11 +590,32 @@ class R:
         self.doc = doc
         self.skip_on = skip_on  # (ExceptionType, substring, finding id): known crash of another property
         self.contents = contents  # None: every special content may be used; tuple: only these (() = generic noise only)
+        self.nw = int(nw)  # number of option combinations of the secondary arguments (selected by X.w, all enumerated)
+        self.sdt = sdt  # dtypes admitted for secondary TENSOR arguments (None: the recipe has no X.sec() argument)
+        self.qstep = int(qstep)  # quick tier: enumerate every qstep-th option combination (coprime to the option radices)
 
 
 class SKIP:
     def __init__(self, why):
         self.why = why
+
+
+SDT_F = ("float32", "float64")
+SDT_FI = ("float32", "float64", "int64")
+SDT_I = ("int64",)
+
+
+def _pick(X, *lists):
+    """One value of each option list, selected by the mixed-radix digits of X.w (all combinations are enumerated)."""
+    w, out = X.w, []
+    for lst in lists:
+        out.append(lst[w % len(lst)])
+        w //= len(lst)
+    return out
+
+
+def _ncomb(*lists):
+    return int(np.prod([len(lst) for lst in lists]))
 
 
 def _f(x):
@@ -919,7 +1018,7 @@ for _n in ("downsample", "upsample"):
         R("sigma_tensor", lambda X: ((X.img(0), 1), {"sigma": X.ten(1, (X.D,), 0.5, 1.0, torch.float32)})),
         R("sigma_tensor1_dims", lambda X: ((X.img(0), 1), {"sigma": X.ten(1, (1,), 0.5, 1.0, torch.float32), "dims": [[0], [1], ["x", "y"]][X.v % 3]})),
         R("sigma_zero_tensor", lambda X: ((X.img(0), 1), {"sigma": torch.zeros(X.D if X.v % 2 else 1)})),
-        R("levels2", lambda X: ((X.img(0), 2), {"sigma": [None, 0.7][X.v % 2]}), skip_on=(AssertionError, "", "F19")),
+        R("levels2", lambda X: ((X.img(0), 2), {"sigma": [None, 0.7][X.v % 2]}), skip_on=(AssertionError, "", "C03: Grid._resize origin assertion when an axis is reduced to a single sample with align_corners=True")),
     ]
 CORE["downsample"].append(R("min_size", lambda X: ((X.img(0), 1), {"min_size": max(X.shape)}), policy="fresh"))
 CORE["evaluate_cubic_bspline"] = [
@@ -1185,6 +1284,7 @@ for _n, _logits in (("tversky_index", False), ("tversky_index_with_logits", True
         R("binary", lambda X, k=_tk: ((X.img(0, C=1), X.mask(1)), k(X)), skip_on=_so),
         R("label_target", lambda X, k=_tk: ((X.img(0, C=1), X.ten(1, (X.N,) + X.shape, 0, 1)), k(X)), skip_on=_so),
     ]
+    LOSS[_n].append(R("binary_weight", lambda X, k=_tk: ((X.img(0, C=1), X.mask(1)), dict(weight=X.mask(2), **k(X))), skip_on=_so))
     if not _logits:
         LOSS[_n] += [
             R("multiclass", lambda X, k=_tk: ((X.img(0, C=3), X.img(1, C=3)), dict(weight=X.mask(2, C=3), **k(X))), skip_on=_so),
@@ -1209,6 +1309,149 @@ LOSS["reduce_loss"] = [
     R("mean", lambda X: ((X.img(0), ["mean", "sum"][X.v % 2]), {})),
     R("mask", lambda X: ((X.img(0), ["mean", "sum"][X.v % 2], X.mask(1)), {})),
 ]
+
+
+# --- secondary arguments given as tensors ------------------------------------------------------
+# Every non-primary argument whose annotation admits a tensor (Scalar / Array unions: sigma, spacing, size, shape, margin,
+# num, value, padding, min / max, x_max, norm, offset, ...) is ALSO passed as a torch.Tensor - 0-dim, 1-element and
+# per-dimension / per-batch forms, dtype float32 / float64 / int64 (case dimension `sdtype`) - together with every value
+# of the options that switch on per-dimension handling of that argument (dims subsets, levels, derivative mode, ...).
+# deepali converts such arguments with as_tensor() / atleast_1d() / cat_scalars() / Tensor.to(), which return the
+# caller's own tensor when dtype and device already match; any in-place arithmetic or index assignment on the converted
+# value would then write into the caller's argument.  The option combination is selected by X.w (see _pick), all are
+# enumerated.  check_secondary_complete() (self-test) asserts that every such parameter of every function is covered.
+
+_SIG_FORMS = ["D", "one", "scalar"]
+_SIG_DIMS = [None, "first", "last", "y", "all"]
+
+
+def _sig_dims(X, code):
+    return {None: None, "first": [0], "last": [X.D - 1], "y": ["y"], "all": list(range(X.D))}[code]
+
+
+def _vec_form(X, slot, form, lo, hi, **kw):
+    """1-D / 0-D forms of a per-dimension argument: D values, one value, 0-dim scalar tensor."""
+    return X.sec(slot, {"D": (X.D,), "one": (1,), "scalar": ()}[form], lo, hi, **kw)
+
+
+def _sec_sigma(levels_arg):
+    def build(X):
+        form, dims, levels = _pick(X, _SIG_FORMS, _SIG_DIMS, [1, 2])
+        args = (X.img(0), levels) if levels_arg else (X.img(0), 2)
+        return args, {"sigma": _vec_form(X, 1, form, 0.5, 1.0, ilo=1, ihi=2), "dims": _sig_dims(X, dims), "align_corners": X.v % 2 == 0}
+
+    return build
+
+
+for _n_ in ("downsample", "upsample"):
+    CORE[_n_].append(R("sec_sigma", _sec_sigma(True), nw=_ncomb(_SIG_FORMS, _SIG_DIMS, [1, 2]), sdt=SDT_FI, skip_on=(AssertionError, "", "C03: Grid._resize origin assertion when an axis is reduced to a single sample with align_corners=True")))
+CORE["gaussian_pyramid"].append(R("sec_sigma", _sec_sigma(False), policy="pass", nw=_ncomb(_SIG_FORMS, _SIG_DIMS), sdt=SDT_FI))
+
+_SP_FORMS = ["ND", "D", "1D", "N1", "one", "scalar"]
+_SP_MODES = [None, "central", "forward", "bspline", "gaussian", "sobel"]
+
+
+def _spacing_form(X, slot, form):
+    shape = {"ND": (X.N, X.D), "D": (X.D,), "1D": (1, X.D), "N1": (X.N, 1), "one": (1,), "scalar": ()}[form]
+    return X.sec(slot, shape, 0.5, 2.0)
+
+
+def _skw(X, bspline=True):
+    """Derivative keyword arguments with `spacing` as tensor in every admitted shape x every derivative mode."""
+    form, mode = _pick(X, _SP_FORMS, _SP_MODES)
+    if mode == "bspline" and not bspline:
+        mode = "backward"
+    kw = {"mode": mode, "spacing": _spacing_form(X, 7, form)}
+    if X.v % 2 == 1:
+        kw["sigma"] = 0.8
+    if mode == "bspline" and X.v % 4 >= 2:
+        kw["stride"] = 2
+    return kw
+
+
+_NSP = _ncomb(_SP_FORMS, _SP_MODES)
+CORE["spatial_derivatives"].append(R("sec_spacing", lambda X: ((X.img(0),), dict(order=1 + X.w // _NSP % 2, **_skw(X))), nw=2 * _NSP, sdt=SDT_FI))
+CORE["flow_derivatives"].append(R("sec_spacing", lambda X: ((X.flow(0),), dict(order=1 + X.w // _NSP % 2, **_skw(X))), nw=2 * _NSP, sdt=SDT_FI))
+for _n_ in ("curl", "divergence"):
+    CORE[_n_].append(R("sec_spacing", lambda X: ((X.flow(0),), _skw(X)), nw=_NSP, sdt=SDT_FI, qstep=5))
+CORE["divergence_free_flow"].append(R("sec_spacing", lambda X: ((X.img(0, C=1 if X.D == 2 else 2),), _skw(X)), nw=_NSP, sdt=SDT_FI, qstep=5))
+for _n_ in ("jacobian_det", "jacobian_dict", "jacobian_matrix"):
+    CORE[_n_].append(R("sec_spacing", lambda X: ((X.flow(0),), dict(add_identity=X.v % 2 == 0, **_skw(X))), nw=_NSP, sdt=SDT_FI, qstep=5))
+CORE["lie_bracket"].append(R("sec_spacing", lambda X: ((X.flow(0), X.flow(1)), _skw(X, bspline=False)), nw=_NSP, sdt=SDT_FI, qstep=5))
+CORE["compose_svfs"].append(R("sec_spacing", lambda X: ((X.flow(0), X.flow(1)), dict(bch_terms=1 + X.v % 5, **_skw(X, bspline=False))), nw=_NSP, sdt=SDT_FI, qstep=5))
+CORE["logv"].append(R("sec_spacing", lambda X: ((X.flow(0, N=1, amp=0.1),), {"num_iters": 1, "bch_terms": 1 + X.v % 2, "exp_steps": 2, "sigma": [1.0, None][X.v % 2],
+                                                                            "spacing": _spacing_form(X, 7, _pick(X, ["D", "1D", "one", "scalar"])[0])}),
+                      nmax=1, nw=4, sdt=SDT_FI))
+for _n_ in ("bending_loss", "bending_energy", "be_loss", "curvature_loss", "diffusion_loss", "divergence_loss", "total_variation_loss", "tv_loss"):
+    LOSS[_n_].append(R("sec_spacing", lambda X: ((X.flow(0),), dict(reduction=_red(X), **_skw(X))), nw=_NSP, sdt=SDT_FI, qstep=5))
+LOSS["grad_loss"].append(R("sec_spacing", lambda X: ((X.flow(0),), dict(p=[2, 1, 1.5][X.v % 3], q=[1, None, 0.5][X.v % 3], reduction=_red(X), **_skw(X))), nw=_NSP, sdt=SDT_FI, qstep=5))
+LOSS["elasticity_loss"].append(R("sec_spacing", lambda X: ((X.flow(0),), dict(first_parameter=1.0, second_parameter=0.5, reduction=_red(X), **_skw(X, bspline=False))),
+                                 nw=_NSP, sdt=SDT_FI, qstep=5))
+
+_FD_MODES = ["forward", "backward", "central", "forward_central_backward"]
+CORE["finite_differences"].append(
+    R("sec_spacing", lambda X: (lambda form, mode, dil: ((X.img(0), X.v % X.D), {"mode": mode, "dilation": dil,
+                                                                               "spacing": X.sec(1, {"N": (X.N,), "one": (1,), "scalar": ()}[form], 0.5, 2.0)}))(
+        *_pick(X, ["N", "one", "scalar"], _FD_MODES, [1, 2])), nw=_ncomb(["N", "one", "scalar"], _FD_MODES, [1, 2]), sdt=SDT_FI))
+
+for _n_ in ("crop", "pad"):
+    CORE[_n_] += [
+        R("sec_margin", lambda X: (lambda mode: ((X.img(0),), dict({"margin": X.sec(1, (X.D,), quant=True, ilo=1, ihi=2), "mode": mode},
+                                                                   **({} if mode == "replicate" else {"value": X.sec(2, (), 2.0, 4.0, ilo=2, ihi=5)}))))(
+            *_pick(X, ["constant", "replicate", "zeros"])), nw=3, sdt=SDT_FI),
+        R("sec_num", lambda X: ((X.img(0),), {"num": X.sec(1, (2 * X.D,), quant=True, ilo=1, ihi=2), "value": X.sec(2, (1,), 2.0, 4.0, ilo=2, ihi=5)}), sdt=SDT_FI),
+        R("sec_num_zero", lambda X: ((X.img(0),), {"num": torch.zeros(2 * X.D, dtype=tdtype(X.sdtype))}), policy="pass", sdt=SDT_FI),
+    ]
+CORE["center_pad"].append(R("sec_value", lambda X: ((X.img(0), [n + 1 + X.w for n in X.size]), {"mode": "constant", "value": X.sec(1, (), 2.0, 4.0, ilo=2, ihi=5)}),
+                            nw=2, sdt=SDT_FI))
+CORE["circle_image"].append(R("sec_x_max", lambda X: (lambda form: (((9, 8),), {"center": X.sec(0, (2,), 3.0, 4.0, ilo=3, ihi=5), "radius": 3.0,
+                                                                               "x_max": _vec_form(X, 1, form, 1.0, 2.5, ihi=3)}))(*_pick(X, ["scalar", "D"])),
+                              dims=(2,), nw=2, sdt=SDT_FI))
+CORE["cshape_image"].append(R("sec_x_max", lambda X: (lambda form: (((9, 8),), {"center": X.sec(0, (2,), 3.0, 4.0, ilo=3, ihi=5), "radius": 3.0, "sigma": 0.5 * (X.v % 2),
+                                                                               "x_max": _vec_form(X, 1, form, 1.0, 2.5, ihi=3)}))(*_pick(X, ["scalar", "D"])),
+                              dims=(2,), nw=2, sdt=SDT_FI))
+CORE["grid_resample"].append(
+    R("sec_spacing", lambda X: (lambda fi, fo, pad: ((X.img(0), _vec_form(X, 1, fi, 1.0, 2.0, ilo=2, ihi=3), _vec_form(X, 2, fo, 0.5, 0.9, ilo=1, ihi=2)),
+                                                    {"padding": [None, "border", X.sec(3, (), 1.0, 3.0)][pad], "mode": ["linear", "nearest"][X.v % 2]}))(
+        *_pick(X, _SIG_FORMS, _SIG_FORMS, [0, 1, 2])), nw=_ncomb(_SIG_FORMS, _SIG_FORMS, [0, 1, 2]), sdt=SDT_FI))
+CORE["grid_reshape"].append(R("sec_shape", lambda X: ((X.img(0), X.sec_vals(1, [n + 1 + (X.v + i) % 2 for i, n in enumerate(X.shape)], torch.int64 if X.w % 2 else torch.int32)),
+                                                      {"align_corners": X.w // 2 == 0, "mode": ["linear", "nearest"][X.v % 2]}), nw=4, sdt=SDT_I))
+CORE["grid_resize"].append(R("sec_size", lambda X: ((X.img(0), X.sec_vals(1, [n + 1 + (X.v + i) % 2 for i, n in enumerate(X.size)], torch.int64 if X.w % 2 else torch.int32)),
+                                                    {"align_corners": X.w // 2 == 0, "mode": ["linear", "nearest"][X.v % 2]}), nw=4, sdt=SDT_I))
+for _n_ in ("denormalize_flow", "normalize_flow"):
+    CORE[_n_].append(R("sec_size", lambda X: (lambda ac, sl, cl: ((X.coords(0) if cl else X.flow(0, amp=2),),
+                                                                 {"size": X.sec(1, (X.D,), quant=True, ilo=2, ihi=9), "channels_last": cl, "align_corners": ac, "side_length": sl}))(
+        *_pick(X, [True, False], [2, 1], [True, False])), nw=8, sdt=SDT_FI))
+for _n_ in ("denormalize_grid", "normalize_grid"):
+    CORE[_n_].append(R("sec_size", lambda X: (lambda ac, sl: ((X.coords(0, lead=(5,)),), {"size": X.sec(1, (X.D,), quant=True, ilo=2, ihi=9), "align_corners": ac, "side_length": sl}))(
+        *_pick(X, [True, False], [2, 1])), nw=4, sdt=SDT_FI))
+CORE["rescale"].append(R("sec_range", lambda X: (lambda which: ((X.img(0, lo=-3, hi=5),), dict(
+    {k: X.sec(1 + i, [(), (1,)][(X.v + i) % 2], lo, hi, ilo=ilo, ihi=ihi) for i, (k, lo, hi, ilo, ihi) in enumerate(
+        [("min", 0.0, 0.5, 0, 1), ("max", 200.0, 255.0, 200, 255), ("data_min", -2.0, -1.0, -2, -1), ("data_max", 3.0, 4.0, 3, 5)]) if which >> i & 1},
+    dtype=[None, torch.uint8, torch.float64][X.v % 3])))(*_pick(X, [15, 3, 12, 1, 2, 4, 8])), nw=7, sdt=SDT_FI))
+CORE["threshold"].append(R("sec_bounds", lambda X: (lambda which: ((X.img(0), X.sec(1, (), 0.1, 0.3, ilo=0, ihi=1) if which & 1 else None,
+                                                                    X.sec(2, (), 0.6, 0.9, ilo=1, ihi=2) if which & 2 else None), {}))(*_pick(X, [3, 1, 2])), nw=3, sdt=SDT_FI))
+def _SF(X):
+    return X.flow(0), _pts(X, 1)
+
+
+for _n_, _b in (("grid_sample", lambda X: (X.img(0), X.coords(1, r=1.3))), ("sample_image", lambda X: (X.img(0), _pts(X, 1))), ("sample_flow", _SF)):
+    CORE[_n_].append(R("sec_padding", lambda X, b=_b: (lambda form: (b(X), {"padding": X.sec(2, [(), (1,)][form], 1.0, 3.0), "align_corners": X.v % 2 == 0,
+                                                                           **({} if b is _SF else {"mode": ["linear", "nearest"][X.v // 2 % 2]})}))(*_pick(X, [0, 1])), nw=2, sdt=SDT_FI))
+CORE["warp_image"].append(R("sec_padding", lambda X: ((X.img(0), X.coords(1)), {"flow": [X.coords(2, r=0.2), None][X.w % 2], "padding": X.sec(3, (), 1.0, 3.0),
+                                                                               "mode": ["linear", "nearest"][X.v % 2]}), nw=2, sdt=SDT_FI))
+CORE["homogeneous_matrix"].append(R("sec_offset", lambda X: (lambda kind, form: ((_hom(X, 0, kind), X.sec(1, [(X.N, X.D), (X.D,), ()][form], -1.0, 1.0)), {}))(
+    *_pick(X, ["hom", "aff"], [0, 1, 2])), nw=6, sdt=SDT_F))
+CORE["identity_transform"].append(R("sec_shape", lambda X: ((X.sec(0, (2,), quant=True, ilo=2, ihi=4),), {"homogeneous": X.v % 2 == 0, "dtype": X.dt}), sdt=SDT_FI))
+CORE["avg_pool"].append(R("sec_divisor", lambda X: ((X.img(0), 2), {"divisor_override": X.sec(1, (), ilo=2, ihi=5)}), sdt=SDT_I))
+CORE["conv"].append(R("kernel_nd", lambda X: ((X.img(0), X.ten(1, (3,) * min(X.D, 2 + X.v % 2), 0.1, 1.0)), {"padding": _pm([None, "replicate", "zeros"][X.v % 3])})))
+CORE["evaluate_cubic_bspline"].append(R("sec_kernel_dtype", lambda X: ((X.img(0),), {"kernel": [X.ten(1 + i, (2, 4), 0, 0.5, X.dt) for i in range(X.D)],
+                                                                                    "shape": torch.Size([n - 3 for n in X.shape]) if X.w else None}), nw=2))
+for _n_ in ("mae_loss", "mse_loss", "ssd_loss"):
+    LOSS[_n_].append(R("sec_norm", lambda X: (lambda form, mask: ((X.img(0), X.img(1)), dict({"mask": X.mask(2)} if mask else {}, norm=X.sec(3, [(), (1,)][form], 2.0, 4.0, ilo=2, ihi=5),
+                                                                                            reduction=_red(X))))(*_pick(X, [0, 1], [False, True])), nw=4, sdt=SDT_FI))
+LOSS["binary_cross_entropy_with_logits"].append(
+    R("sec_pos_weight", lambda X: ((X.img(0, lo=-2, hi=2), X.mask(1, C=X.C)), {"pos_weight": X.sec(2, [(X.shape[-1],), (1,), ()][X.w], 0.5, 2.0), "reduction": _red(X)}), nw=3, sdt=SDT_F))
 
 TABLE = {"core": CORE, "losses": LOSS}
 
@@ -1256,6 +1499,64 @@ def check_table_complete():
         raise AssertionError("C15 recipe table incomplete: " + "; ".join(problems))
 
 
+# parameters that admit a tensor according to their annotation but are deliberately never passed as one
+SEC_EXEMPT = {("losses", "ncc_loss", "mask"): "known finding K6 (C16): ncc_loss() rejects every mask (ValueError), the argument form cannot be called"}
+
+
+def tensor_parameters(fn):
+    """Names of the parameters whose annotation admits a torch.Tensor (Tensor, Scalar, Array and unions of them)."""
+    import inspect
+
+    out = []
+    for k, p in inspect.signature(fn).parameters.items():
+        if p.kind in (p.VAR_POSITIONAL, p.VAR_KEYWORD):
+            continue
+        if "Tensor" in str(p.annotation):
+            out.append(k)
+    return out
+
+
+def check_secondary_complete():
+    """Every parameter of every public function whose annotation admits a tensor must receive a torch.Tensor in at least
+    one recipe (dry build of all recipes over D and all option combinations w, arguments bound to the signature)."""
+    import inspect
+
+    problems = []
+    for ns, mod in _namespaces().items():
+        for name, rs in sorted(TABLE[ns].items()):
+            if isinstance(rs, SKIP):
+                continue
+            fn = getattr(mod, name)
+            want = [k for k in tensor_parameters(fn) if (ns, name, k) not in SEC_EXEMPT]
+            if not want:
+                continue
+            sig = inspect.signature(fn)
+            got = set()
+            for rec in rs:
+                for D in rec.dims:
+                    for w in range(rec.nw):
+                        X = Ctx({"D": D, "N": 2, "C": 2, "shape": _default_shape(D), "dtype": "float32", "layouts": ["contig"], "key": 17, "v": w % 6,
+                                 "w": w, "sdtype": (rec.sdt or SDT_F)[0]})
+                        X.N = min(X.N, rec.nmax)
+                        X.sec_allowed = rec.sdt
+                        args, kwargs = rec.build(X)
+                        try:
+                            bound = sig.bind(*args, **kwargs)
+                        except TypeError as e:
+                            problems.append(f"{ns}.{name}[{rec.tag}]: arguments do not match the signature ({e})")
+                            continue
+                        for k, val in bound.arguments.items():
+                            if any(True for _ in walk_tensors(val)):
+                                got.add(k)
+                if set(want) <= got:
+                    break
+            for k in want:
+                if k not in got:
+                    problems.append(f"{ns}.{name}: parameter '{k}' admits a tensor but no recipe passes one")
+    if problems:
+        raise AssertionError("C15 secondary tensor arguments incomplete: " + "; ".join(problems))
+
+
 # =======================================================================================
 # facet 1: functional_args
 
@@ -1281,6 +1582,7 @@ def run_functional(case):
     X.allowed = rec.layouts
     X.no_expand = rec.no_expand
     X.content_allowed = rec.contents
+    X.sec_allowed = rec.sdt
     fn = getattr(_namespaces()[ns], name)
     args, kwargs = rec.build(X)
     snap = Snapshot(args, kwargs, X.bases)
@@ -1298,7 +1600,9 @@ def run_functional(case):
         raise
     labels = [f"D={X.D}", case["dtype"], f"policy={policy}", f"fn={name}"]
     labels += sorted({f"content={c}" for c in X.special}) or ["content=noise"]
-    tag = f"{name}[{rec.tag}]" + (f" content={sorted(set(X.special))}" if X.special else "")
+    if X.secs:
+        labels.append(f"secondary={X.sdtype if X.sdtype in (rec.sdt or SDT_F) else (rec.sdt or SDT_F)[0]}")
+    tag = f"{name}[{rec.tag}]" + (f" content={sorted(set(X.special))}" if X.special else "") + (f" w={X.w} sdtype={X.sdtype}" if X.secs else "")
 
     # 1. the call itself must not modify any argument (except the in-place target)
     target_path = rec.inplace
@@ -1335,7 +1639,7 @@ def run_functional(case):
             raise Violation(f"result_aliases_arg:{name}",
                             f"{tag}: after add_(1) on the result, argument(s) {changed} changed - the returned tensor shares memory with an input")
         labels.append("probed" if probed else "unprobed")
-    nontrivial = bool(snap.items) and (X.views > 0 or bool(aliased) or bool(target_path) or bool(X.special))
+    nontrivial = bool(snap.items) and (X.views > 0 or bool(aliased) or bool(target_path) or bool(X.special) or X.secs > 0)
     return {"nontrivial": nontrivial, "labels": labels}
 
 
@@ -1352,6 +1656,7 @@ def functional_cases(draw):
         "layouts": draw(st.lists(st.sampled_from(LAYOUTS), min_size=4, max_size=4)),
         "contents": draw(st.lists(st.sampled_from(["noise"] * 6 + SPECIAL_CONTENTS), min_size=4, max_size=4)),
         "key": draw(st.integers(0, 9999)), "v": draw(st.integers(0, 59)),
+        "w": draw(st.integers(0, max(0, rec.nw - 1))), "sdtype": draw(st.sampled_from(list(rec.sdt or SDT_F))),
     }
 
 
@@ -1391,6 +1696,22 @@ def enumerate_functional(tier):
                         yield {"ns": ns, "fn": name, "recipe": ri, "tag": rec.tag, "D": D, "N": 2, "C": 2, "shape": _default_shape(D, v),
                                "dtype": ["float32", "float64"][(v // 2 + k) % 2], "layouts": lays[(v + k) % 3 if k else 0],
                                "contents": [content] * 4, "key": 17 + v, "v": v}
+    # secondary tensor arguments: every option combination (w) x every admitted dtype of the secondary tensor x both
+    # data dtypes (so that each no-conversion pass-through combination occurs) x dimension; contiguous and view layouts
+    for ns, name, ri in table_entries():
+        rec = TABLE[ns][name][ri]
+        if not rec.sdt:
+            continue
+        for D in rec.dims:
+            for w in range(0, rec.nw, 1 if tier == "thorough" else rec.qstep):
+                for si, sd in enumerate(rec.sdt):
+                    for di, dt in enumerate(("float32", "float64")):
+                        if tier != "thorough" and sd != "float32" and di != (w + si) % 2:
+                            continue  # quick tier: a float32 secondary tensor with both data dtypes, the others alternate
+                        for k in (range(3) if tier == "thorough" else [(w + si + di) % 2]):
+                            v = (w + si + 2 * k) % 6
+                            yield {"ns": ns, "fn": name, "recipe": ri, "tag": rec.tag, "D": D, "N": 2 - (w + k) % 2 if tier == "thorough" else 2, "C": 2,
+                                   "shape": _default_shape(D, v), "dtype": dt, "layouts": lays[k], "key": 17 + w, "v": v, "w": w, "sdtype": sd}
 
 
 # =======================================================================================
@@ -1777,10 +2098,20 @@ class Env:
         self.key = int(d["key"])
         self.size = list(d["size"])
         self.args = []
+        self.arg_fp0 = []  # fingerprints of the argument objects taken when they were created (= before the call)
 
     def keep(self, x):
         self.args.append(x)
+        self.arg_fp0.append(_arg_fp(x))
         return x
+
+    def pick(self, *lists):
+        """One value of each option list, selected by the mixed-radix digits of the variant number v."""
+        v, out = self.v, []
+        for lst in lists:
+            out.append(lst[v % len(lst)])
+            v //= len(lst)
+        return out
 
     def vec(self, lo=-2.0, hi=2.0, n=None, k=0):
         n = self.D if n is None else n
@@ -1834,6 +2165,26 @@ def _grid_ops():
         "region_of_interest": lambda g, e: g.region_of_interest([1] * e.D, [2] * e.D),
         "avg_pool": lambda g, e: g.avg_pool(2),
         "pyramid": lambda g, e: g.pyramid(2),
+        # size / spacing / margin arguments given as tensors (cat_scalars() hands the caller's tensor through), and the
+        # align_corners option set to the opposite of the grid's own flag
+        "resize_tensor": lambda g, e: g.resize(e.keep(torch.tensor([n + 1 + (e.v + i) % 3 for i, n in enumerate(g.size())], dtype=[torch.int64, torch.int32][e.v % 2])),
+                                                align_corners=[not g.align_corners(), None][e.v // 2 % 2]),
+        "reshape_tensor": lambda g, e: g.reshape(e.keep(torch.tensor([n + 1 + (e.v + i) % 3 for i, n in enumerate(g.shape)])), align_corners=[not g.align_corners(), None][e.v % 2]),
+        "resample_tensor": lambda g, e: g.resample(e.tvec(0.4, 1.6, dtype=[torch.float32, torch.float64][e.v % 2])),
+        "resample_minmax": lambda g, e: g.resample(["min", "max"][e.v % 2], min_size=1 + e.v // 2 % 2),
+        "center_crop_tensor": lambda g, e: g.center_crop(e.keep(torch.tensor([max(1, n - 2 + 3 * ((e.v + i) % 2)) for i, n in enumerate(g.size())]))),
+        "center_pad_tensor": lambda g, e: g.center_pad(e.keep(torch.tensor([max(1, n + 3 - 4 * ((e.v + i) % 2)) for i, n in enumerate(g.size())]))),
+        "crop_tensor": lambda g, e: g.crop(margin=e.keep(torch.tensor([1] * e.D))) if e.v % 2 else g.crop(num=e.keep(torch.tensor([1, 0] * e.D))),
+        "pad_tensor": lambda g, e: g.pad(margin=e.keep(torch.tensor([1 + (e.v + i) % 2 for i in range(e.D)]))) if e.v % 2 else g.pad(num=e.keep(torch.tensor([1, 2] * e.D))),
+        "region_of_interest_tensor": lambda g, e: g.region_of_interest(e.keep(torch.tensor([1] * e.D)), e.keep(torch.tensor([2] * e.D))),
+        "downsample_opts": lambda g, e: (lambda ac, lv, dims, ms: g.downsample(lv, dims=dims, min_size=ms, align_corners=[not g.align_corners(), None, g.align_corners()][ac]))(
+            *e.pick([0, 1, 2], [1, 2, -1], [None, [0], ["y"]], [1, 3])),
+        "upsample_opts": lambda g, e: (lambda ac, lv, dims: g.upsample(lv, dims=dims, align_corners=[not g.align_corners(), None, g.align_corners()][ac]))(
+            *e.pick([0, 1, 2], [1, 2, -1], [None, [0], ["y"]])),
+        "pool": lambda g, e: g.pool((2, 3, 2)[:e.D] if e.v % 2 else 2, ceil_mode=e.v // 2 % 2 == 1),
+        "avg_pool_opts": lambda g, e: g.avg_pool((2, 3, 2)[:e.D] if e.v % 2 else 2, ceil_mode=e.v // 2 % 2 == 1),
+        "pyramid_opts": lambda g, e: g.pyramid(2 + e.v % 2, dims=[None, [0], ["y"]][e.v // 2 % 3], min_size=[0, 3][e.v // 6 % 2]),
+        "same_domain_as": lambda g, e: [g.same_domain_as(e.other_grid()), g.same_domain_as(g)],
         "clone": lambda g, e: g.clone(),
         "cube": lambda g, e: g.cube(),
         "domain": lambda g, e: g.domain(),
@@ -1860,11 +2211,270 @@ def _cube_ops():
         "extent": lambda c, e: c.extent(e.vec(1.0, 9.0) if e.v % 2 else e.tvec(1.0, 9.0)),
         "grid": lambda c, e: c.grid(size=[4 + i for i in range(e.D)], align_corners=e.v % 2 == 0),
         "grid_spacing": lambda c, e: c.grid(spacing=0.75),
+        "grid_tensor": lambda c, e: c.grid(size=e.keep(torch.tensor([4 + i for i in range(e.D)])), align_corners=e.v % 2 == 0) if e.v % 3 else
+        c.grid(spacing=e.tvec(0.5, 1.0, dtype=[torch.float32, torch.float64][e.v // 3 % 2]), align_corners=e.v % 2 == 0),
         "clone": lambda c, e: c.clone(),
         "maps": lambda c, e: [c.cube_to_world(e.points()[0]), c.world_to_cube(e.points()[0]), c.transform(), c.affine(), c.inverse_affine(),
                               c.transform_points(e.points()[0], "cube", "world"), c.transform_vectors(e.points()[0], "world", "cube")],
         "getters": lambda c, e: [c.center(), c.origin(), c.direction(), c.extent(), c.spacing(), c.numpy()],
     }
+
+
+class M:
+    """Accessor op that calls ONE public method of the receiver: build(x, e) -> (args, kwargs).  `nv` is the number of
+    option combinations selected by the variant number (Env.pick); all of them are enumerated.  Because the arguments are
+    explicit, the self-test can bind them to the method signature and assert that every optional parameter of every
+    public method is set by some variant (check_data_methods_complete)."""
+
+    def __init__(self, method, build, nv=1, static=False):
+        self.method, self.build, self.nv, self.static = method, build, int(nv), static
+
+    def __call__(self, x, e):
+        args, kwargs = self.build(x, e)
+        fn = getattr(type(x), self.method) if self.static else getattr(x, self.method)
+        return fn(*args, **kwargs)
+
+
+def _ac3(x, i):
+    """align_corners option: 0 the opposite of the receiver's flag, 1 default (None), 2 the receiver's flag."""
+    cur = bool(x.align_corners())
+    return [not cur, None, cur][i]
+
+
+def _m_ops(kind):
+    """Method ops of the data classes with every optional argument set to non-default values / values that differ from
+    the receiver's state (align_corners opposite to the grid flag, tensor forms of sigma / size / spacing / margin / ...)."""
+    batch = kind in ("ImageBatch", "FlowFields")
+    flow = kind in ("FlowField", "FlowFields")
+
+    def sp(x):
+        return [int(n) for n in x.grid().size()]
+
+    def sigma(e, i):  # None, per-dimension float32 tensor, 1-element float32 tensor, float, float64 tensor
+        return [None, lambda: e.tvec(0.5, 1.0, n=e.D), lambda: e.tvec(0.5, 1.0, n=1), lambda: 0.7, lambda: e.tvec(0.5, 1.0, n=e.D, dtype=torch.float64)][i]
+
+    def sig(e, i):
+        f = sigma(e, i)
+        return None if f is None else f()
+
+    def b_pyramid(x, e):
+        ac, dims, sg, spc, se, mm = e.pick([0, 1, 2], [None, [0]], [0, 1, 3], [None, 0.5], [(0, -1), (1, -1), (1, 1)], [(0, None), (2, "linear")])
+        kw = {"align_corners": _ac3(x, ac), "dims": dims, "sigma": sig(e, sg), "start": se[0], "end": se[1], "min_size": mm[0], "mode": mm[1],
+              "spacing": None if spc is None else spc * float(x.grid().spacing().min())}
+        return (3,), kw
+
+    def b_downsample(x, e):
+        ac, lv, dims, sg, mm = e.pick([0, 1, 2], [1, 2, -1], [None, [0], ["y"]], [0, 1, 2, 3, 4], [(None, 0), ("bicubic" if e.D == 2 else "linear", 3)])
+        return (lv,), {"dims": dims, "sigma": sig(e, sg), "mode": mm[0], "min_size": mm[1], "align_corners": _ac3(x, ac)}
+
+    def b_upsample(x, e):
+        ac, lv, dims, sg, mode = e.pick([0, 1, 2], [1, 2, -1], [None, [0], ["y"]], [0, 1, 2, 3, 4], [None, "bicubic" if e.D == 2 else "linear"])
+        return (lv,), {"dims": dims, "sigma": sig(e, sg), "mode": mode, "align_corners": _ac3(x, ac)}
+
+    def b_resize(x, e):
+        ac, form, mode = e.pick([0, 1, 2], [0, 1, 2, 3], ["linear", "nearest"])
+        size = [n + 1 + (i + e.v) % 2 for i, n in enumerate(sp(x))]
+        kw = {"mode": mode, "align_corners": _ac3(x, ac)}
+        if form == 0:
+            return (size,), kw
+        if form == 1:
+            return (e.keep(torch.tensor(size)),), kw
+        if form == 2:
+            return tuple(size), kw
+        return (e.keep(torch.tensor(sp(x))),), kw  # current size given as tensor: nothing to do
+
+    def b_resample(x, e):
+        form, mode = e.pick([0, 1, 2, 3, 4, 5, 6], ["linear", "nearest"])
+        vals = [0.75 + 0.25 * i for i in range(e.D)]
+        arg = [(0.75,), (vals,), (e.keep(torch.tensor(vals, dtype=torch.float32)),), (e.keep(torch.tensor(vals, dtype=torch.float64)),), ("min",), ("max",), tuple(vals)][form]
+        return arg, {"mode": mode}
+
+    def b_sample(x, e):
+        form, mode, pad = e.pick([0, 1, 2, 3, 4], [None, "nearest"], [None, "zeros", 2.0, 3])
+        g = x.grid()
+        if form == 0:
+            arg = e.keep(g.resize([n + 1 for n in sp(x)]))
+        elif form == 1:
+            arg = e.keep(g.align_corners(not g.align_corners()).center(e.vec()))
+        elif form == 2:
+            arg = e.keep([g.spacing(e.vec(0.6, 1.4))] * (len(x) if batch else 1)) if batch else e.keep(g.spacing(e.vec(0.6, 1.4)))
+        elif form == 3:
+            arg = e.points(batch=len(x) if batch else 1) if batch else e.points()[0]
+        else:
+            arg = e.keep(g)
+        padding = e.keep(torch.tensor(1.5)) if pad == 3 else pad
+        return (arg,), {"mode": mode, "padding": padding}
+
+    def b_crop(x, e):
+        form, mode, val = e.pick([0, 1, 2, 3, 4], ["constant", "replicate"], [0, 1])
+        kw = {"mode": mode}
+        if mode == "constant":
+            kw["value"] = [2.5, e.keep(torch.tensor(1.5))][val]
+        if form == 0:
+            kw["margin"] = 1
+        elif form == 1:
+            kw["margin"] = [1] * e.D
+        elif form == 2:
+            kw["margin"] = e.keep(torch.tensor([1] * e.D))
+        elif form == 3:
+            kw["num"] = [1, 0] * e.D
+        else:
+            kw["num"] = e.keep(torch.tensor([1, 0] * e.D))
+        return (), kw
+
+    def b_center(delta):
+        def build(x, e):
+            form, mode, val = e.pick([0, 1, 2], ["constant", "replicate"], [0, 1])
+            # per-axis sizes on both sides of the current size (the other side is a no-op along that axis)
+            size = [max(1, n + delta * (1 if (i + e.v // 12) % 2 == 0 else -1)) for i, n in enumerate(sp(x))]
+            arg = [(size,), (e.keep(torch.tensor(size)),), tuple(size)][form]
+            if delta < 0:
+                return arg, {}
+            kw = {"mode": mode}
+            if mode == "constant":
+                kw["value"] = [2.5, e.keep(torch.tensor(1.5))][val]
+            return arg, kw
+
+        return build
+
+    def b_avg_pool(x, e):
+        # stride / padding other than the defaults raise NotImplementedError in Grid.pool() ("currently not supported")
+        ks, ceil, cip = e.pick([2, "tuple"], [False, True], [True, False])
+        return ((2, 3, 2)[:e.D] if ks == "tuple" else 2,), {"stride": None, "padding": 0, "ceil_mode": ceil, "count_include_pad": cip}
+
+    def b_conv(x, e):
+        form, pad = e.pick([0, 1, 2], [None, "replicate", 1])
+        k = e.keep(torch.tensor([0.25, 0.5, 0.25]))
+        kernel = [k, [k] + [None] * (e.D - 1), e.keep(torch.full((3,) * e.D, 1.0 / 3 ** e.D))][form]
+        return (kernel,), {"padding": pad}
+
+    def b_roi(x, e):
+        # start / size must be int or sequences of int (tensors raise the documented TypeError)
+        form, pad = e.pick([0, 1], [("constant", 0.0), ("constant", 1.5), ("replicate", 0.0), ("zeros", 0.0)])
+        start, size = ([1] * e.D, [3, 2, 2][:e.D]) if form else (1, 3)
+        return (start, size), {"padding": pad[0], "value": pad[1]}
+
+    def b_rescale(x, e):
+        form, dt = e.pick([0, 1, 2], [None, torch.uint8, torch.float64])
+        if form == 0:
+            return (0, 255), {"data_min": -1.0, "data_max": 2.0, "dtype": dt}
+        if form == 1:
+            return (e.keep(torch.tensor(0.0)), e.keep(torch.tensor(200.0))), {"data_min": e.keep(torch.tensor(-1.0)), "data_max": e.keep(torch.tensor([2.0])), "dtype": dt}
+        return (), {"min": 0, "max": 1, "dtype": dt}
+
+    def b_normalize(x, e):
+        mode, rng = e.pick(["unit", "center", "zscore"], [(None, None), (-0.1, None), (None, 0.6), (0.1, 0.7)])
+        if mode == "zscore" and rng == (None, None):  # torch.clamp(None, None) raises: at least one bound is required
+            rng = (0.1, None)
+        return (), {"mode": mode, "min": rng[0], "max": rng[1]}
+
+    def other(x, e, same):
+        d = dict(e.d) if same else dict(e.d, center=[c + 1.0 for c in e.d.get("center", [0.0] * e.D)])
+        return e.keep(build_data(d, key_offset=3))
+
+    ops = {
+        "pyramid_opts": M("pyramid", b_pyramid, nv=3 * 2 * 3 * 2 * 3 * 2),
+        "downsample_opts": M("downsample", b_downsample, nv=3 * 3 * 3 * 5 * 2),
+        "upsample_opts": M("upsample", b_upsample, nv=3 * 3 * 3 * 5 * 2),
+        "resize_opts": M("resize", b_resize, nv=3 * 4 * 2),
+        "resample_opts": M("resample", b_resample, nv=7 * 2),
+        "sample_opts": M("sample", b_sample, nv=5 * 2 * 4),
+        "crop_opts": M("crop", b_crop, nv=5 * 2 * 2),
+        "pad_opts": M("pad", b_crop, nv=5 * 2 * 2),
+        "center_crop_opts": M("center_crop", b_center(-2), nv=3 * 2 * 2 * 2),
+        "center_pad_opts": M("center_pad", b_center(2), nv=3 * 2 * 2 * 2),
+        "avg_pool_opts": M("avg_pool", b_avg_pool, nv=8),
+        "conv_opts": M("conv", b_conv, nv=9),
+        "region_of_interest": M("region_of_interest", b_roi, nv=8),
+        "rescale_opts": M("rescale", b_rescale, nv=9),
+        "normalize_opts": M("normalize", b_normalize, nv=12),
+        "narrow_m": M("narrow", lambda x, e: (((2 if batch else 1) + e.v % e.D, 1, 2), {}) if e.v % 3 else ((-1 - e.v % e.D,), {"start": 1, "length": 2}), nv=6),
+        "tensor_m": M("tensor", lambda x, e: ((), {})),
+        "getters_m0": M("align_corners", lambda x, e: ((), {})), "getters_m1": M("center", lambda x, e: ((), {})),
+        "getters_m2": M("origin", lambda x, e: ((), {})), "getters_m3": M("spacing", lambda x, e: ((), {})),
+        "getters_m4": M("direction", lambda x, e: ((), {})),
+        "getters_m5": M("cube", (lambda x, e: ((), {"n": e.v % len(x)})) if batch else (lambda x, e: ((), {}))),
+        "getters_m6": M("domain", (lambda x, e: ((), {"n": e.v % len(x)})) if batch else (lambda x, e: ((), {}))),
+        "grid_m": M("grid", lambda x, e: (lambda g: ((e.keep([g] * len(x)) if batch and e.v % 2 else e.keep(g),), {}))(
+            [x.grid().align_corners(not x.align_corners()), x.grid().center(e.vec()), x.grid().spacing(e.vec(0.4, 2.0)), x.grid()][e.v // 2 % 4]), nv=8),
+    }
+    if batch:
+        ops["same_domains_as"] = M("same_domains_as", lambda x, e: ((other(x, e, e.v % 2 == 0),), {}), nv=2)
+        ops["from_images"] = M("from_images", lambda x, e: ((e.keep([x[i] for i in range(len(x))]),), {}), static=True)
+        ops["append_m"] = M("append", lambda x, e: ((other(x, e, e.v % 2 == 0),), {}), nv=2)
+        ops["grid_n"] = M("grid", lambda x, e: ((e.v % len(x),), {}), nv=2)
+        ops["getters_m7"] = M("cubes", lambda x, e: ((), {}))
+        ops["getters_m8"] = M("domains", lambda x, e: ((), {}))
+        ops["getters_m9"] = M("grids", lambda x, e: ((), {}))
+    else:
+        ops["same_domain_as"] = M("same_domain_as", lambda x, e: ((other(x, e, e.v % 2 == 0),), {}), nv=2)
+        ops["batch_m"] = M("batch", lambda x, e: ((), {}))
+        ops["sitk"] = M("sitk", (lambda x, e: ((), {"axes": [None, axes_("world"), axes_("grid")][e.v % 3]})) if flow else (lambda x, e: ((), {})), nv=3 if flow else 1)
+    if flow:
+        ops["curl_opts"] = M("curl", lambda x, e: (lambda mode, sp: ((), {"mode": mode, "sigma": [None, 0.8][e.v % 2], "stride": None,
+                                                                         "spacing": e.tvec(0.5, 2.0, n=e.D) if sp == 2 else [None, 0.5][sp]}))(
+            *e.pick([None, "central", "gaussian"], [0, 1, 2])), nv=9)
+        ops["axes_m"] = M("axes", lambda x, e: ((axes_(["world", "grid", "cube", "cube_corners"][e.v % 4]),), {}), nv=4)
+        ops["exp_opts"] = M("exp", lambda x, e: (lambda sc, st, sa, pa: ((), {"scale": sc, "steps": st, "sampling": sa, "padding": pa}))(
+            *e.pick([None, 0.5, -1.0], [None, 0, 2], ["linear", "nearest"], ["border", "zeros"])), nv=36)
+        ops["warp_image_opts"] = M("warp_image", lambda x, e: (lambda sa, pa, im: ((e.keep(build_data(dict(e.d, cls="ImageBatch" if (batch or im) else "Image", C=1, N=len(x) if batch else 1), key_offset=5)),),
+                                                                                   {"sampling": sa, "padding": pa}))(*e.pick([None, "nearest"], [None, "zeros", "border"], [0, 1])), nv=12)
+        if not batch:
+            ops["from_image"] = M("from_image", lambda x, e: ((e.keep(build_data(dict(e.d, cls="Image", C=e.D), key_offset=5)),), {"axes": [None, axes_("grid")][e.v % 2]}), nv=2, static=True)
+    return ops
+
+
+# public methods of the data classes that are deliberately not called by the accessor facet (everything else must be
+# covered by an M op, see check_data_methods_complete)
+DATA_METHOD_EXEMPT = {
+    "read": "file I/O (class method, no receiver)", "write": "file I/O", "from_uri": "file / network I/O", "to_uri": "file / network I/O",
+    "from_sitk": "class method without receiver; conversion from SimpleITK is the subject of the I/O properties",
+    "grid_": "explicit in-place variant", "normalize_": "explicit in-place variant",
+}
+
+
+def check_data_methods_complete():
+    """Every public method that deepali defines for Image / ImageBatch / FlowField / FlowFields has an M op, and the
+    variants of the M ops of a method together pass EVERY parameter of its signature explicitly."""
+    import inspect
+
+    import deepali.data as DD
+
+    problems = []
+    for cls_name in DATA_KINDS:
+        cls = getattr(DD, cls_name)
+        D = 2
+        d = {"kind": "data", "cls": cls_name, "D": D, "size": [7, 5], "spacing": [1.0, 0.5], "center": [1.0, -2.0], "rot": 0.0, "ac": True, "N": 2, "C": 2,
+             "key": 5, "v": 0}
+        mops = [op for op in _m_ops(cls_name).values()]
+        for n in sorted(dir(cls)):
+            if n.startswith("_"):
+                continue
+            owner = next((k for k in cls.__mro__ if n in k.__dict__), None)
+            if owner is None or not owner.__module__.startswith("deepali") or not callable(getattr(cls, n)) or isinstance(inspect.getattr_static(cls, n), property):
+                continue
+            if n in DATA_METHOD_EXEMPT:
+                continue
+            mine = [op for op in mops if op.method == n]
+            if not mine:
+                problems.append(f"{cls_name}.{n}: public method without accessor op")
+                continue
+            sig = inspect.signature(getattr(cls, n))
+            params = [k for k, p_ in sig.parameters.items() if k not in ("self", "cls") and p_.kind not in (p_.VAR_POSITIONAL, p_.VAR_KEYWORD)]
+            if n == "region_of_interest" and not params:  # Image.region_of_interest(*args, **kwargs) forwards to ImageBatch
+                continue
+            got = set()
+            for op in mine:
+                for v in range(op.nv):
+                    x = build_data(d)
+                    a, kw = op.build(x, Env(dict(d, v=v)))
+                    b = sig.bind(*([x] if not op.static and "self" in sig.parameters else []), *a, **kw) if "self" in sig.parameters else sig.bind(*a, **kw)
+                    got |= set(b.arguments)
+            missing = [k for k in params if k not in got]
+            if missing:
+                problems.append(f"{cls_name}.{n}: parameter(s) {missing} never set by an accessor op")
+    if problems:
+        raise AssertionError("C15 accessor coverage of data classes incomplete: " + "; ".join(problems))
 
 
 def _data_ops(kind):
@@ -1925,6 +2535,7 @@ def _data_ops(kind):
         ops["axes"] = lambda x, e: x.axes(axes_(["world", "grid", "cube", "cube_corners"][e.v % 4]))
         ops["exp"] = lambda x, e: x.exp(steps=1 + e.v % 2, scale=[None, 0.5][e.v % 2])
         ops["warp_image"] = lambda x, e: x.warp_image(e.keep(build_data(dict(e.d, cls="ImageBatch" if batch else "Image", C=1), key_offset=5)))
+    ops.update(_m_ops(kind))
     return ops
 
 
@@ -2027,6 +2638,8 @@ def run_accessor(case):
                 twin.update()
         pre = True
     env = Env(d)
+    siblings = _siblings(obj, kind)
+    sib_before = [object_fp(x) for x in siblings]
     before = object_fp(obj)
     try:
         with torch.no_grad():
@@ -2047,10 +2660,14 @@ def run_accessor(case):
         if type(e).__name__ == "ReadOnlyParameters" and op == "matrix":
             raise Skip("documented: parameters provided by a callable are read-only")
         raise
-    arg_fps = [(a, _arg_fp(a)) for a in env.args]  # taken after the call: compared again at the end (kept alive)
+    name = d["cls"] if kind in ("transform", "data") else kind
+    # argument objects (tensors, grids, other images / transforms) as they were when they were created for the call
+    for a, fp0 in zip(env.args, env.arg_fp0):
+        if fp_diff(fp0, _arg_fp(a)):
+            raise Violation(f"accessor_mutates_argument:{op}", f"{name}.{op}: an argument object ({type(a).__name__}) was changed by the call: {fp_diff(fp0, _arg_fp(a))[:4]}")
+    arg_fps = [(a, _arg_fp(a)) for a in env.args]  # compared again at the end (kept alive)
     after = object_fp(obj)
     diffs = fp_diff(before, after)
-    name = d["cls"] if kind in ("transform", "data") else kind
     labels = [f"recv={name}", f"op={op}", f"D={d['D']}"]
     if is_t:
         labels += [f"params={d.get('params')}", f"pre_update={pre}", f"pre_call={call}"]
@@ -2060,6 +2677,11 @@ def run_accessor(case):
         cat = diff_category(diffs[0])
         raise Violation(f"accessor_mutates_receiver:{op}:{cat}",
                         f"{name}.{op}(...): receiver fingerprint changed at {diffs[:6]}")
+    # other objects that were built from the same Grid object(s) as the receiver (grids are shared by reference)
+    for x, fp0 in zip(siblings, sib_before):
+        diffs = fp_diff(fp0, object_fp(x))
+        if diffs:
+            raise Violation(f"accessor_mutates_shared_grid:{op}", f"{name}.{op}(...): {type(x).__name__} sharing the receiver's Grid object changed at {diffs[:6]}")
     # behaviour after the call must equal the behaviour of a twin that never saw the call
     if is_t:
         y1, y0 = behaviour(obj, d), behaviour(twin, d)
@@ -2084,7 +2706,34 @@ def run_accessor(case):
     for a, fp0 in arg_fps:
         if fp_diff(fp0, _arg_fp(a)):
             raise Violation(f"accessor_mutates_argument:{op}", f"{name}.{op}: an argument object changed")
-    return {"nontrivial": op not in ("getters", "clone", "tensor", "data_get", "matrix_get"), "labels": labels}
+    return {"nontrivial": op not in ("getters", "clone", "tensor", "data_get", "matrix_get", "tensor_m") and not op.startswith("getters_m"), "labels": labels}
+
+
+def _siblings(obj, kind):
+    """Objects that reference the very same Grid object(s) as the receiver, as is usual in deepali (images, batches and
+    transforms are constructed from one Grid and keep a reference to it)."""
+    import deepali.spatial as S
+    from deepali.core import Grid
+    from deepali.data import Image, ImageBatch
+
+    if kind == "Grid":
+        grids = [obj]
+    elif kind == "data":
+        g = obj.__dict__.get("_grid")
+        grids = list(g) if isinstance(g, (list, tuple)) else [g]
+    elif kind == "transform":
+        grids = [obj.grid()]
+    else:
+        return []
+    grids = [g for g in grids if isinstance(g, Grid)]
+    if not grids:
+        return []
+    out = [Image(torch.zeros((1,) + tuple(grids[0].shape)), grids[0]), S.Translation(grids[-1])]
+    if len(grids) > 1:
+        out.append(ImageBatch(torch.zeros((len(grids), 1) + tuple(grids[0].shape)), grids))
+    for x, g in zip(out, [grids[0], grids[-1]]):
+        assert x.grid() is g  # shared by reference
+    return out
 
 
 def _arg_fp(a):
@@ -2114,7 +2763,7 @@ def _accessor_case(draw, kind, cls, op):
         "rot": draw(st.sampled_from([0.0, 0.0, 0.3, -0.7, 1.2])), "ac": draw(st.booleans()),
         "params": draw(st.sampled_from(["parameter", "parameter", "buffer", "callable"])), "groups": draw(st.integers(1, 2)),
         "pre_update": draw(st.booleans()), "N": draw(st.integers(1, 2)), "C": draw(st.integers(1, 2)),
-        "key": draw(st.integers(0, 9999)), "v": draw(st.integers(0, 59)),
+        "key": draw(st.integers(0, 9999)), "v": draw(st.integers(0, 539)),
         "content": draw(st.sampled_from(["noise"] * 4 + SPECIAL_CONTENTS)), "pre_call": draw(st.booleans()),
     }
 
@@ -2154,8 +2803,17 @@ def enumerate_accessors(tier):
             for pk in kinds:
                 for pre in (["none", "update", "call"] if kind == "transform" else ["none"]):
                     contents = _data_contents(cls) if kind == "data" else ["noise", "identity"] if kind == "transform" and pre == "update" else ["noise"]
+                    nv = getattr(accessor_ops({"kind": kind, "cls": cls})[op], "nv", 0)
                     for content in contents:
-                        for v in (range(4) if tier == "thorough" else range(2) if kind == "data" else range(1)):
+                        # M ops: all option combinations (with generic content); the special contents with the first two
+                        vs = range(4) if tier == "thorough" else range(2) if kind == "data" else range(1)
+                        if kind in ("Grid", "Cube"):  # cheap: all option combinations of the accessor arguments (at most 54)
+                            vs = range(108) if tier == "thorough" else range(54)
+                        if nv > len(vs) and content == "noise":
+                            # Image / FlowField methods delegate to the batch classes: every 7th combination in the quick tier
+                            # (7 is coprime to the option radices 2, 3, 5, so every value of every option still occurs)
+                            vs = range(nv) if tier == "thorough" or cls in ("ImageBatch", "FlowFields") or nv <= 36 else range(0, nv, 7)
+                        for v in vs:
                             yield {"kind": kind, "cls": cls, "op": op, "D": D, "size": [7, 5, 6][:D], "spacing": [1.0, 0.5, 2.0][:D],
                                    "center": [1.0, -2.0, 0.5][:D], "rot": [0.0, 0.3][v % 2], "ac": v % 4 < 2 or pk == "buffer", "params": pk,
                                    "groups": 1 + v % 2, "pre_update": pre == "update", "pre_call": pre == "call", "N": 2, "C": 2, "key": 5 + v, "v": v,
@@ -2250,7 +2908,8 @@ def _modify(obj, init, how, v):
                 return "inplace_data"
             if how == "grid_inplace":
                 g = obj.grid()
-                [lambda: g.center_([delta + i for i in range(D)]), lambda: g.spacing_([1.25 + delta + i for i in range(D)])][v % 2]()
+                [lambda: g.center_([delta + i for i in range(D)]), lambda: g.spacing_([1.25 + delta + i for i in range(D)]),
+                 lambda: g.align_corners_(not g.align_corners())][v % 3]()
                 return "grid_object_setter"
             g = obj.grid()
             g2 = [g.center([delta + 3 + i for i in range(D)]), g.spacing([2.25 + delta] * D)][v % 2]
@@ -2273,6 +2932,11 @@ def _modify(obj, init, how, v):
             m_ = tgt[v % len(tgt)]
             m_.data_(m_.data().detach().clone().add_(delta))
             return "data_"
+        if how == "unlink_":
+            if not hasattr(obj, "unlink_") or not isinstance(getattr(obj, "params", None), torch.Tensor):
+                raise Skip("no own parameters to release")
+            obj.unlink_()
+            return "unlink_"
         if how == "condition_":
             obj.condition_(torch.tensor([delta]))
             return "condition_"
@@ -2296,6 +2960,7 @@ def _own_attrs(fp):
         return fp
     return {"attrs": {k: v for k, v in fp["attrs"].items() if "." not in k and k != "params"},
             "buffer_names": tuple(sorted(k for k in fp["buffers"] if "." not in k)),
+            "parameter_names": tuple(sorted(k for k, v in fp["params"].items() if v != ("value", None))),
             "module_names": tuple(sorted(fp["modules"])),
             "persistent": {k: v for k, v in fp["persistent"].items() if "." not in k},
             "nonpersistent_set": fp["nonpersistent_set"].get("", ("value", ())),
@@ -2321,6 +2986,7 @@ def run_copies(case):
     nmods = ncopies = 0
     directions = set()
     regridded = set()  # ids of transforms whose grid was replaced by grid_()
+    unlinked = set()  # ids of transforms whose parameters were released by unlink_() (params is None: cannot be evaluated)
     deferred = []
     for step in steps:
         if step["op"] == "copy":
@@ -2333,6 +2999,8 @@ def run_copies(case):
             c = _take_copy(objs[i], how)
             if id(objs[i]) in regridded:
                 regridded.add(id(c))
+            if id(objs[i]) in unlinked:
+                unlinked.add(id(c))
             ncopies += 1
             labels.append(f"copy={how}")
             # taking a copy changes nothing
@@ -2374,6 +3042,8 @@ def run_copies(case):
             i = step["obj"] % len(objs)
             if id(objs[i]) in regridded and init.get("params") == "callable":
                 continue  # the callable still provides parameters of the shape required by the previous grid: not evaluable
+            if id(objs[i]) in unlinked:
+                continue  # parameters were released (None): nothing to evaluate
             own_before = [_own_attrs(object_fp(o)) for o in objs]
             pv = _parameter_values(objs[i])
             with torch.no_grad():
@@ -2406,12 +3076,14 @@ def run_copies(case):
                 how = "setter"
             if kind == "data" and how not in ("inplace", "setter", "grid_inplace"):
                 how = "inplace"
-            if is_t and how not in ("inplace", "setter", "data_", "condition_", "hook", "train"):
+            if is_t and how not in ("inplace", "setter", "data_", "condition_", "hook", "train", "unlink_"):
                 how = "inplace"
             own_before = [_own_attrs(object_fp(o)) for o in objs]
             what = _modify(objs[i], init, how, v)
             if what == "grid_" and is_t:
                 regridded.add(id(objs[i]))
+            if what == "unlink_":
+                unlinked.add(id(objs[i]))
             nmods += 1
             labels.append(f"mod={what}")
             directions.add("original" if i == 0 else "copy")
@@ -2429,7 +3101,7 @@ def run_copies(case):
                                         f"modifying object {i} ({what}) changed the independent {rel} {j} at {d[:4]}")
                 else:
                     # same shallow group: shared tensors may change, own attributes / container keys must not
-                    if what in ("grid_", "condition_", "setter", "train_flag"):
+                    if what in ("grid_", "condition_", "setter", "train_flag", "unlink_"):
                         d = fp_diff(own_before[j], _own_attrs(object_fp(o)))
                         if d:
                             raise Violation(f"shallow_copy_shares_attributes:{what}",
@@ -2465,7 +3137,7 @@ def copy_cases(draw):
             steps.append({"op": "eval", "obj": draw(st.integers(0, 5)), "call": draw(st.booleans())})
         else:
             steps.append({"op": "mod", "obj": draw(st.integers(0, 5)),
-                          "how": draw(st.sampled_from(["inplace", "inplace", "setter", "data_", "grid_inplace", "condition_", "hook", "train"])),
+                          "how": draw(st.sampled_from(["inplace", "inplace", "setter", "data_", "grid_inplace", "condition_", "hook", "train", "unlink_"])),
                           "v": draw(st.integers(0, 11))})
     return {"init": init, "steps": steps}
 
@@ -2475,10 +3147,12 @@ def enumerate_copies(tier):
     for kind, cls in _receivers():
         D = 3 if cls in ("QuaternionRotation", "RigidQuaternionTransform") else 2
         mods = {"Grid": ["inplace", "setter"], "Cube": ["inplace", "setter"], "data": ["inplace", "setter", "grid_inplace"],
-                "transform": ["inplace", "setter", "data_", "condition_", "hook", "train"]}[kind]
+                "transform": ["inplace", "setter", "data_", "condition_", "hook", "train", "unlink_"]}[kind]
         for pk in ((["parameter", "buffer", "callable"] if tier == "thorough" else ["parameter", "callable"]) if kind == "transform" else ["parameter"]):
             for how in COPY_HOW:
                 for mod in mods:
+                    if mod == "unlink_" and (cls not in LINEAR_PARAMETRIC + NONRIGID or pk == "callable"):
+                        continue  # only parametric transforms that hold their own parameter tensor can release it
                     for side in (0, 1):
                         for v in (range(3) if tier == "thorough" else range(1)):
                             init = {"kind": kind, "cls": cls, "op": "-", "D": D, "size": [7, 5, 6][:D], "spacing": [1.0, 0.5, 2.0][:D],
@@ -2500,6 +3174,8 @@ def enumerate_copies(tier):
 def selftest():
     """The recipe table must cover both __all__ lists; the snapshot / fingerprint machinery must see planted changes."""
     check_table_complete()
+    check_secondary_complete()
+    check_data_methods_complete()
     nan = float("nan")
     a = torch.tensor([1.0, nan, 3.0])
     assert same_bits(a, a.clone()) and not same_bits(a, torch.tensor([1.0, nan, 3.5])) and not same_bits(a, a.double())
@@ -2549,6 +3225,27 @@ def selftest():
     g.spacing_(3.0)
     assert fp_diff(g0, grid_fp(g))
     assert len(all_tensors(t)) >= 4
+    # the align_corners flag of a Grid (ignored by Grid.__eq__) and fractional grid sizes are part of every fingerprint,
+    # also for objects that merely reference the Grid
+    dd = {"kind": "data", "cls": "ImageBatch", "D": 2, "size": [6, 5], "key": 1, "ac": True, "N": 2, "C": 1}
+    x = build_data(dd)
+    sib = _siblings(x, "data")
+    f0, s0 = data_fp(x), [object_fp(y) for y in sib]
+    gx = x.grid()
+    flipped = gx.clone().align_corners_(not gx.align_corners())  # (in-place setter on a clone: no accessor under test is used here)
+    assert flipped == gx  # Grid.__eq__ does not see the flag ...
+    gx.align_corners_(not gx.align_corners())  # ... planted: flag of the shared Grid object overwritten in place
+    assert any("_align_corners" in z for z in fp_diff(f0, data_fp(x))), fp_diff(f0, data_fp(x))
+    assert any(fp_diff(a, object_fp(y)) for a, y in zip(s0, sib))
+    gx.align_corners_(not gx.align_corners())
+    assert fp_diff(f0, data_fp(x)) == []
+    gx._size = gx._size + 0.5  # planted: fractional internal size (Grid.size() still rounds to the same integers)
+    assert any("_size" in z for z in fp_diff(f0, data_fp(x)))
+    # a secondary tensor argument handed through without a copy is seen when it is written to
+    sg = torch.tensor([1.0, 0.5])
+    snap = Snapshot((torch.zeros(1, 1, 4, 4),), {"sigma": sg}, [(sg, sg)])
+    torch.atleast_1d(torch.as_tensor(sg, dtype=torch.float))[1] = 0
+    assert "kwargs['sigma']" in snap.changed()
 
 
 FACETS = [
@@ -2557,17 +3254,21 @@ FACETS = [
                "(function, recipe, D) triples with fixed layouts + Hypothesis cases over shapes, dtypes, N, C, variant numbers and the "
                "memory layouts contiguous / expanded / strided / offset / transposed, and per-slot tensor contents noise / unit / "
                "unit_offset / center / const / zeros / ones / binary / intvals / identity; enumeration of all variant numbers 0..5 and of "
-               "every (function, recipe, special content) triple); non-trivial = the call received at least one "
-               "tensor argument that is a view or has a special content, or the result aliases an argument, or it is an in-place variant",
-          quick=1000, thorough=20000, shards=16, quick_shards=3),
+               "every (function, recipe, special content) triple; enumeration of every (function, sec_* recipe, option combination w, "
+               "dtype of the secondary tensor, data dtype) tuple); non-trivial = the call received at least one "
+               "tensor argument that is a view, has a special content or is a secondary argument given as tensor, or the result aliases an "
+               "argument, or it is an in-place variant",
+          quick=1000, thorough=20000, shards=16, quick_shards=4),
     Facet("accessors", run_accessor, strategy=accessor_cases, enumerate=enumerate_accessors,
           rule="every (receiver class, accessor) pair of Grid, Cube, Image, ImageBatch, FlowField, FlowFields and 23 transform "
                "configurations, with Parameter / buffer / callable parameters, fresh / after update() / after __call__(), data receivers "
-               "with every special content, transforms with identity parameters, enumerated and generated (grids, sizes, values); non-trivial = accessor with an argument that differs from the current state (not a pure getter)",
-          quick=800, thorough=10000, shards=16, quick_shards=2),
+               "with every special content, transforms with identity parameters, enumerated and generated (grids, sizes, values); for the data "
+               "classes every public method with every option combination of its parameters (M ops), for Grid / Cube all 54 variants of "
+               "each accessor; non-trivial = accessor with an argument that differs from the current state (not a pure getter)",
+          quick=800, thorough=10000, shards=16, quick_shards=6),
     Facet("copies", run_copies, strategy=copy_cases, enumerate=enumerate_copies,
           rule="histories of up to 8 steps over copy.copy / deepcopy / clone / pickle, modifications (in place on tensors, `_` setters, "
-               "data_, condition_, grid object setters, remove_update_hook, train flag) and evaluations (update / __call__) of any object "
+               "data_, unlink_, condition_, grid object setters incl. align_corners_, remove_update_hook, train flag) and evaluations (update / __call__) of any object "
                "taken so far; non-trivial = at least one copy, one modification and "
                "two independent groups",
           quick=300, thorough=3000, shards=8, quick_shards=4),
